@@ -433,8 +433,17 @@ fn describe_diff(a: &VerifContextDump, b: &VerifContextDump) -> (String, String)
 
 type Mon = Rc<RefCell<Monitor>>;
 
-fn giant_type() -> Type {
-    array_type(vec![1 << 40, 1 << 30, 1 << 20], UINT64)
+/// types that exist only as types: valid ones whose size estimate overflows or that exhaust the
+/// context's total size when added twice, and an invalid one
+fn giant_type(rng: &mut crate::rng::Rng) -> Type {
+    match rng.below(6) {
+        0 => array_type(vec![1 << 57], UINT64),
+        1 => array_type(vec![1 << 60], UINT64),
+        2 => array_type(vec![1 << 58], UINT64),
+        3 => array_type(vec![1 << 31, 1 << 31], BIT),
+        4 => array_type(vec![1 << 62], BIT),
+        _ => array_type(vec![1 << 40, 1 << 30, 1 << 20], UINT64),
+    }
 }
 
 pub fn run(ctx: &mut Ctx) {
@@ -489,7 +498,8 @@ pub fn run(ctx: &mut Ctx) {
                                     }
                                 }
                                 2 => {
-                                    let r = g.input(giant_type());
+                                    let gt = giant_type(&mut ctx.rng);
+                                    let r = g.input(gt);
                                     mon.borrow_mut().after(&call, r.is_ok(), "input of a giant type");
                                 }
                                 3 => {
@@ -525,7 +535,21 @@ pub fn run(ctx: &mut Ctx) {
                                     } else {
                                         let mut b = B::new(g.clone(), &mut ctx.rng, Flavor::Any);
                                         b.allow_custom = false;
-                                        b.pool = g.get_nodes();
+                                        // nodes of giant types exist only as types: never compute with them
+                                        b.pool = g
+                                            .get_nodes()
+                                            .into_iter()
+                                            .filter(|n| {
+                                                n.get_type()
+                                                    .ok()
+                                                    .and_then(|t| ciphercore_base::data_types::get_size_in_bits(t).ok())
+                                                    .map(|b| b <= 1 << 16)
+                                                    .unwrap_or(false)
+                                            })
+                                            .collect();
+                                        if b.pool.is_empty() {
+                                            return;
+                                        }
                                         let m2 = mon.clone();
                                         let call2 = call.clone();
                                         b.on_result = Some(Box::new(move |ok: bool, name: &str| {
